@@ -24,6 +24,9 @@ def const(P, unit, name):
 def enum(P, name):
     e = P.facts.get("enums", {})
     if name not in e:
+        c = P.facts.get("macros", {}).get("__config__", {})
+        if name in c:
+            return c[name]
         raise AnalysisBroken("anchor enumerator %s not found" % name)
     return e[name]
 
@@ -70,6 +73,42 @@ def must_pass(P, f, block, edge_pred):
     edge_pred(atom, pol) holds — i.e. the block is unreachable once those edges are deleted."""
     reach = P.reach_blocks(f, drop=lambda atom, pol, a, b: edge_pred(atom, pol))
     return block not in reach
+
+
+def field_writers(P, struct, field):
+    """names of the functions that contain a store into that member (type based, any object)"""
+    cache = P.__dict__.setdefault("_field_writers", {})
+    key = (struct, field)
+    if key not in cache:
+        w = set()
+        for h in P.functions.values():
+            for i in h.all_insts():
+                if i.op == "store":
+                    d = P.term(h, i.a[1])
+                    if d[0] == "field" and (d[2], d[3]) == key:
+                        w.add(h.name)
+        cache[key] = w
+    return cache[key]
+
+
+def guarded_fresh(P, f, site, passes, killers):
+    """every path to `site` takes an edge satisfying passes(atom, pol), and does so AFTER the last of the `killers` (instructions
+    that invalidate what the guard established) on that path"""
+    if not must_pass(P, f, site.block, passes):
+        return False
+    eg = P.edge_graph(f)
+    for k in killers:
+        if k.block == site.block and k.idx < site.idx:
+            return False
+        for n in eg:
+            if n[1] != k.block:
+                continue
+            for (sn, atom, pol) in eg[n]:
+                if atom is not None and passes(atom, pol):
+                    continue
+                if sn[1] == site.block or site.block in P.reach_blocks(f, drop=lambda a, p_, x, y: passes(a, p_), start=sn):
+                    return False
+    return True
 
 
 def guards_of(P, f, block):
